@@ -1113,7 +1113,11 @@ fn builtin_sort(args: Vec<Rc<Object>>) -> Result<Rc<Object>, String> {
     let obj = args[0].as_ref();
     match obj {
         Object::Arr(arr) => {
-            arr.elements.borrow_mut().sort();
+            // sort by a total order: a comparison that is not one (NaN, values of
+            // different kinds) makes the standard sort panic
+            arr.elements
+                .borrow_mut()
+                .sort_by(|a, b| a.total_order(b));
             Ok(Rc::clone(&args[0]))
         }
         _ => Err(String::from("argument should be an array")),
